@@ -3,7 +3,8 @@
    The model (theories/Ledger.v) mirrors vm/vm.go, vm/vm_context/balance.go, chain/account/{balance,received,sequencer}.go,
    the sequencer push of chain/momentum/ledger_store.go, the value checks of verifier/account_block.go and
    vm/embedded/implementation/token.go; every other embedded method is the arbitrary parameter [KOther]. *)
-From ZV Require Import Prelude Ledger LedgerProofs LedgerEmb LedgerEmbProofs.
+From ZV Require Import Prelude Ledger LedgerProofs LedgerEmb LedgerEmbProofs LedgerSource.
+Require ZV.gen.Pure ZV.gen.PureFunds.
 From ZV.gen Require Import Consts.
 Open Scope Z_scope.
 
@@ -121,3 +122,21 @@ Example C01_history_example :
 Proof. vm_compute. repeat split; reflexivity. Qed.
 Example C01_genesis_example : Inv ex_genesis.
 Proof. apply genesis_sound; [vm_compute; reflexivity | |]; repeat constructor; cbn; lia. Qed.
+
+(* ---- the balance arithmetic of the model IS the code: vm.enoughFunds and accountVmContext.AddBalance / SubBalance
+   translated from /repo's source by go2coq on every run (gen/PureFunds.v); the balance read from the account store is
+   an input, the value handed to SetBalance an output of the translations *)
+Theorem C01_enough_funds_is_the_source : forall s a z v,
+  ZV.gen.PureFunds.enoughFunds z (get_bal (a, z) (bal s)) 0 v = GoSem.Ok (enough_funds s a z v).
+Proof. exact enough_funds_is_source. Qed.
+Theorem C01_sub_balance_is_the_source : forall s a z v,
+  ZV.gen.PureFunds.SubBalance v (get_bal (a, z) (bal s)) 0 0 =
+  match sub_balance s a z v with
+  | Some s' => GoSem.Ok (Some (get_bal (a, z) (bal s')))
+  | None => GoSem.Panic
+  end.
+Proof. exact sub_balance_is_source. Qed.
+Theorem C01_add_balance_is_the_source : forall s a z v,
+  ZV.gen.PureFunds.AddBalance v (get_bal (a, z) (bal s)) 0 0 = GoSem.Ok (Some (get_bal (a, z) (bal (add_balance s a z v)))).
+Proof. exact add_balance_is_source. Qed.
+
